@@ -281,6 +281,7 @@ def build_inner(u):
             raise Infra('ALPN_H2 is not a plain byte-string literal any more')
         t.edit('R15', m.start(), m.end(), '&[' + ', '.join('%du8' % ord(c) for c in m.group(1)) + ']', 'byte-string literal')
     u.exec_const(ST, 'ALPN_H2', indent='', edits=[bytes_as_array], ensures=[Clause('A1_the_alpn_identifier_of_http2', 'ALPN_H2@ == seq![104u8, 50u8]')])
+    u.fn_guard(ST, 'convert_certificate_to_pki_types', 'pub(crate) fn convert_certificate_to_pki_types( certificate: &Certificate, ) -> Result<Vec<CertificateDer<\'static>>, TlsError> { CertificateDer::pem_reader_iter(&mut Cursor::new(certificate)) .collect::<Result<Vec<_>, _>>() .map_err(|_| TlsError::CertificateParseError) }', why='A-rustls-05')
     u.raw('''
 // A-rustls-05: the PEM readers of service/tls.rs (iterator adapters over rustls-pki-types) as functions of the bytes
 #[verifier::external_body]
